@@ -280,7 +280,7 @@ theorem optUse_src (t : Bool) (rank ty : String) (c : Int) (pos : Nat) (plain sa
   · simp at hi; subst hi; exact hk
   · simp at hi
 
-theorem andSteps_src {α β : Type} (rank tyA tyB : String) (ta tb : Bool) (ap bp : Nat) (a : Fib Int α) (b : Fib Int β) :
+theorem andSteps_src {α β : Type} (rank tyA tyB : String) (ta tb : Bool) (ap bp : List Nat) (a : Fib Int α) (b : Fib Int β) :
     SrcSteps [(rank, tyA), (rank, tyB)] [] (andSteps rank tyA tyB ta tb ap bp a b) := by
   have hA : (rank, tyA) ∈ [(rank, tyA), (rank, tyB)] := by simp
   have hB : (rank, tyB) ∈ [(rank, tyA), (rank, tyB)] := by simp
@@ -322,7 +322,7 @@ theorem andSteps_src {α β : Type} (rank tyA tyB : String) (ta tb : Bool) (ap b
     · exact ih i hi
 
 theorem lfSteps_src {α β : Type} (rankA rankB tyA tyB : String) (ta : Bool) (dfl : β) (b : Fib Int β) :
-    ∀ (a : Fib Int α) (i : Nat),
+    ∀ (a : Fib Int α) (i : List Nat),
       SrcSteps [(rankA, tyA), (rankB, tyB)] [] (lfSteps rankA rankB tyA tyB ta dfl b i a) := by
   intro a
   induction a with
@@ -334,10 +334,10 @@ theorem lfSteps_src {α β : Type} (rankA rankB tyA tyB : String) (ta : Bool) (d
     rcases hj with ⟨x, hx, rfl⟩ | rfl | hj
     · exact optUse_src _ _ _ _ _ _ _ (by simp) x hx
     · show (rankB, tyB) ∈ _; simp
-    · exact ih (i + 1) j hj
+    · exact ih i.tail j hj
 
 theorem projLoop_src {α : Type} (srcRank ty : String) (t : Bool) (off : Int) (lo hi : Option Int) :
-    ∀ (a : Fib Int α) (j : Nat), SrcSteps [] [(srcRank, ty)] (projLoop srcRank ty t off lo hi j a) := by
+    ∀ (a : Fib Int α) (j : List Nat), SrcSteps [] [(srcRank, ty)] (projLoop srcRank ty t off lo hi j a) := by
   intro a
   induction a with
   | nil => intro j i hm; simp [projLoop] at hm
@@ -357,17 +357,17 @@ theorem projLoop_src {α : Type} (srcRank ty : String) (t : Bool) (off : Int) (l
             rcases hm with rfl | rfl
             · exact ⟨rfl, by simp⟩
             · rfl
-        · exact ih (j + 1) i hm
+        · exact ih j.tail i hm
       · simp only [projLoop, h1, h2, if_false, Bool.false_eq_true] at hm
-        exact ih (j + 1) i hm
+        exact ih j.tail i hm
 
-theorem projSteps_src {α : Type} (srcRank ty : String) (t : Bool) (off : Int) (lo hi : Option Int) (a : Fib Int α) :
-    SrcSteps [] [(srcRank, ty)] (projSteps srcRank ty t off lo hi a) := by
+theorem projSteps_src {α : Type} (srcRank ty : String) (t : Bool) (off : Int) (lo hi : Option Int) (pa : List Nat) (a : Fib Int α) :
+    SrcSteps [] [(srcRank, ty)] (projSteps srcRank ty t off lo hi pa a) := by
   intro i hm
   simp only [projSteps, List.mem_cons, Step.emit.injEq] at hm
   rcases hm with rfl | hm
   · rfl
-  · exact projLoop_src srcRank ty t off lo hi a 0 i hm
+  · exact projLoop_src srcRank ty t off lo hi a pa i hm
 
 /-! ### lifting source items into a consumer -/
 
